@@ -195,8 +195,8 @@ Proof.
   destruct (dv_check s kp e =? 0) eqn:C; simpl negb; cbv iota.
   2:{ apply Z.eqb_neq in C. simpl. repeat split; auto; intros; try tauto; try contradiction. }
   apply Z.eqb_eq in C.
-  destruct (slash_validator s p ds) as [s1|x] eqn:S.
-  - destruct (slash_then_jail _ _ _ _ S) as [v [Hv [G [Hs1 J]]]]. rewrite J.
+  destruct (slash_validator s p ds) as [s1|x] eqn:SV.
+  - destruct (slash_then_jail _ _ _ _ SV) as [v [Hv [G [Hs1 J]]]]. rewrite J.
     destruct (v_sinfo v) eqn:SI; simpl.
     + split; [|split].
       * split; auto. intros _. split; auto. exists v. apply guard_rec_0 in G. tauto.
@@ -207,10 +207,10 @@ Proof.
         intros [_ [w [Hw [_ [_ Hsi]]]]]. rewrite Hv in Hw. inversion Hw; subst. congruence.
       * unfold E_JAIL; intro H; discriminate H.
       * auto.
-  - simpl. assert (NG := slash_err _ _ _ _ S).
+  - simpl. assert (NG := slash_err _ _ _ _ SV).
     assert (Hx : x <> 0).
-    { unfold slash_validator, guards in S. destruct (getv s p) as [w|]; [|inversion S; unfold E_NOTFOUND; lia].
-      destruct (guard_rec w =? 0) eqn:E; [discriminate|]. apply Z.eqb_neq in E. inversion S; subst; auto. }
+    { unfold slash_validator, guards in SV. destruct (getv s p) as [w|]; [|inversion SV; unfold E_NOTFOUND; lia].
+      destruct (guard_rec w =? 0) eqn:E; [discriminate|]. apply Z.eqb_neq in E. inversion SV; subst; auto. }
     split; [|split].
     + split; [intro; contradiction|].
       intros [_ [w [Hw [A [B _]]]]]. exfalso. apply NG. exists w. split; auto. apply guard_rec_0; auto.
@@ -276,8 +276,8 @@ Proof.
   induction l as [|x l IH]; simpl; intros e H; [discriminate|].
   destruct (last_signer a l) as [y|] eqn:L.
   - inversion H; subst. destruct (IH e eq_refl) as [A [B C]]. auto.
-  - destruct (signed x && (g_addr x =? a)) eqn:S; [|discriminate]. inversion H; subst.
-    apply andb_true_iff in S. destruct S as [S1 S2]. apply Z.eqb_eq in S2. auto.
+  - destruct (signed x && (g_addr x =? a)) eqn:SG; [|discriminate]. inversion H; subst.
+    apply andb_true_iff in SG. destruct SG as [S1 S2]. apply Z.eqb_eq in S2. auto.
 Qed.
 
 Lemma last_signer_none : forall a l, last_signer a l = None <-> forall e, In e l -> signed e = true -> g_addr e <> a.
@@ -286,11 +286,11 @@ Proof.
   destruct (last_signer a l) as [y|] eqn:L.
   - split; [discriminate|]. intros H. exfalso.
     destruct (last_signer_some _ _ _ L) as [A [B C]]. eapply H; eauto.
-  - destruct (signed x && (g_addr x =? a)) eqn:S.
-    + split; [discriminate|]. intro H. apply andb_true_iff in S. destruct S as [S1 S2]. apply Z.eqb_eq in S2.
+  - destruct (signed x && (g_addr x =? a)) eqn:SV.
+    + split; [discriminate|]. intro H. apply andb_true_iff in SV. destruct SV as [S1 S2]. apply Z.eqb_eq in S2.
       exfalso. eapply H; eauto.
     + split; auto. intros _ e [He|He] Sg.
-      * subst. rewrite Sg in S. simpl in S. apply Z.eqb_neq in S. auto.
+      * subst. rewrite Sg in SV. simpl in SV. apply Z.eqb_neq in SV. auto.
       * apply (proj1 IH eq_refl); auto.
 Qed.
 
@@ -401,8 +401,8 @@ Proof.
     + intro i. unfold count_res. simpl. destruct (getv s' i); auto.
     + intros [a [[] _]].
   - set (p := resolve c a) in *.
-    destruct (slash_validator s p ds) as [s1|x] eqn:S.
-    + destruct (slash_then_jail _ _ _ _ S) as [v [Hv [G [Hs1 J]]]]. rewrite J in H.
+    destruct (slash_validator s p ds) as [s1|x] eqn:SV.
+    + destruct (slash_then_jail _ _ _ _ SV) as [v [Hv [G [Hs1 J]]]]. rewrite J in H.
       destruct (v_sinfo v) eqn:SI; simpl in H; [|discriminate].
       destruct (IH _ _ _ _ H) as [T [C [L [V [N [E X]]]]]].
       rewrite punish_one_time in T. rewrite punish_one_cons in C. rewrite punish_one_len in L.
@@ -413,7 +413,7 @@ Proof.
            unfold punishable. rewrite G. reflexivity.
         -- rewrite punish_one_getv_other; auto.
       * intros _. exists a. split; [left; auto|]. exists v. auto.
-    + assert (NG := slash_err _ _ _ _ S).
+    + assert (NG := slash_err _ _ _ _ SV).
       destruct (IH _ _ _ _ H) as [T [C [L [V [N [E X]]]]]].
       repeat split; auto.
       * intro i. rewrite V, count_res_cons. fold p.
@@ -436,8 +436,8 @@ Proof.
   induction l as [|a t IH]; intros s n; simpl.
   - split; [intros [x H]; discriminate | intros [a [[] _]]].
   - set (p := resolve c a).
-    destruct (slash_validator s p ds) as [s1|x] eqn:S.
-    + destruct (slash_then_jail _ _ _ _ S) as [v [Hv [G [Hs1 J]]]]. rewrite J.
+    destruct (slash_validator s p ds) as [s1|x] eqn:SV.
+    + destruct (slash_then_jail _ _ _ _ SV) as [v [Hv [G [Hs1 J]]]]. rewrite J.
       destruct (v_sinfo v) eqn:SI; simpl.
       * rewrite IH. split; intros [b [Hb [w [Hw [Gw Sw]]]]].
         -- exists b. split; auto. exists w.
@@ -451,7 +451,7 @@ Proof.
               destruct (Z.eq_dec (resolve c b) p) as [E|E]; [rewrite E in Hw; congruence|].
               rewrite punish_one_getv_other; auto.
       * split; [|eauto]. intros _. exists a. split; auto. exists v. auto.
-    + assert (NG := slash_err _ _ _ _ S). rewrite IH.
+    + assert (NG := slash_err _ _ _ _ SV). rewrite IH.
       split; intros [b [Hb Bb]]; [exists b; auto|].
       destruct Hb as [Hb|Hb]; [|eauto]. subst b. exfalso. apply NG.
       destruct Bb as [w [Hw [Gw _]]]. exists w. auto.
@@ -484,9 +484,9 @@ Proof.
     destruct (mb_cfm m) eqn:E5; simpl in H; [|discriminate H].
     destruct (mb_vcm m) eqn:E6; simpl in H; [|discriminate H].
     exists c, chain, cl. repeat split; auto.
-  - intros [c [chain [cl H]]]. decompose [and] H; clear H. subst.
-    rewrite H0, H1, Z.eqb_refl, H3, Z.eqb_refl, H5, H8, H10. simpl.
-    apply Z.ltb_ge in H6. rewrite H6. reflexivity.
+  - intros [c [chain [cl [Hc [Hch [E1 [Hcl [E2 [E3 [E4 [E5 E6]]]]]]]]]]]. subst.
+    rewrite Hc, Hch, Z.eqb_refl, Hcl, Z.eqb_refl, E3, E5, E6. simpl.
+    apply Z.ltb_ge in E4. rewrite E4. reflexivity.
 Qed.
 
 Lemma handle_mb_spec : forall s m,
